@@ -250,7 +250,7 @@ def run(ctx):
          "subtree": 0.3, "run_seed": 11 + ctx.seed},
         {"id": 1, "proposal": "fully-adapted", "outlier_prob": 0.0, "clustered": True, "chains": 1, "n_mut": 7, "iters": 6,
          "subtree": 0.0, "run_seed": 5 + ctx.seed},
-        {"id": 2, "proposal": "bootstrap", "outlier_prob": 0.2, "clustered": False, "chains": 4, "n_mut": 4, "iters": 5,
+        {"id": 2, "proposal": "bootstrap", "outlier_prob": 0.2, "clustered": True, "chains": 4, "n_mut": 6, "iters": 5,
          "subtree": 0.5, "run_seed": 123 + ctx.seed},
     ]
     if not quick:
